@@ -18,6 +18,7 @@ import ast
 
 from .common import *
 from ..engine.callgraph import CallGraph
+from ..engine.loader import class_methods
 
 EX = "xonsh/execer.py"
 TL = "xonsh/tools.py"
@@ -149,6 +150,7 @@ def check(ctx):
     ctx.rule("R1", "every while loop reachable from Execer.parse has a recognised variant (budget / monotone index / stream consumer), and no for loop there grows the collection it iterates", floor=9)
     ctx.rule("R2", "the self-recursion of _parse_ctx_free is bounded: entered only when logical_input is false, and it passes logical_input=True", floor=2)
     ctx.rule("R3", "the recovery loop raises only the parser's own SyntaxError/IndentationError (no internal exception type is raised explicitly)", floor=5)
+    ctx.rule("R7", "the second-phase scope question is answered from the live binding stack alone: the query methods store nothing on the transformer and read no transformer state that changes during the walk except that stack", floor=2)
     ctx.rule("R6", "line tables indexed by the parser's line numbers are split the way the parser counts lines (\\n only)", floor=2)
     ctx.rule("R5", "every verdict of the open-triple-quote scanner comes out of its quote- and comment-aware scan (or is 'nothing open' when no marker occurs at all); the line joiners ask only the scanner", floor=4)
     ctx.rule("R4", "the line returned by tools.subproc_toks is built only from slices of the source line and the literals '![' and ']'", floor=3)
@@ -194,7 +196,11 @@ def check(ctx):
                         v = a.value
                         if isinstance(v, ast.BinOp) and unparse(v.left) == var and isinstance(const_value(v.right), int) and const_value(v.right) > 0:
                             return (isinstance(v.op, ast.Add) and direction > 0) or (isinstance(v.op, ast.Sub) and direction < 0)
-                        return _abstract(a, locals_, var) in ent.get("also", {})
+                        if _abstract(a, locals_, var) in ent.get("also", {}):
+                            return True
+                        # one arm of `if c: v = A else: v = B`: the catalogue knows the statement as `v = A if c else B`
+                        whole = as_conditional_assign(a)
+                        return whole is not None and _abstract(whole, locals_, var) in ent.get("also", {})
                     return False
 
                 # is the loop head reachable again, staying inside the loop, without passing a progress node?
@@ -479,6 +485,69 @@ def check(ctx):
     if n_tab < 2:
         raise AnalysisError(f"only {n_tab} line tables found on the detection path (2 confirmed by hand)")
 
+    _scope_queries(ctx)
+
+
+_MUTATORS = {"add", "update", "discard", "remove", "append", "pop", "clear", "extend", "insert", "setdefault", "popitem", "difference_update", "intersection_update", "symmetric_difference_update", "appendleft", "popleft", "sort", "reverse", "__setitem__", "__delitem__"}
+
+
+def _scope_queries(ctx):
+    """Whether `pwd` on a line of its own is a command or a variable is decided by CtxAwareTransformer from a stack of
+    binding sets that is pushed and popped with function/class bodies.  An answer that survives the pop (a memo, a
+    counter, a cached verdict) makes later lines depend on earlier, closed scopes."""
+    am = ctx.repo.module(AS)
+    cls = am.cls("CtxAwareTransformer")
+    meths = class_methods(cls)
+    # the stack: the attribute that def/class visitors push and pop
+    pushes = {}
+    for name, fn in meths.items():
+        for c in calls_in(fn):
+            if isinstance(c.func, ast.Attribute) and c.func.attr in ("append", "pop") and isinstance(c.func.value, ast.Attribute) and unparse(c.func.value.value) == "self":
+                pushes.setdefault(c.func.value.attr, set()).add((name, c.func.attr))
+    stacks = [a for a, ev in pushes.items() if {k for _, k in ev} == {"append", "pop"}]
+    if len(stacks) > 1 and "is_in_scope" in meths:
+        # the one the scope query consults
+        stacks = [a for a in stacks if any(isinstance(n, ast.Attribute) and n.attr == a and unparse(n.value) == "self" for n in walk_local(meths["is_in_scope"]))]
+    if len(stacks) != 1:
+        raise AnchorMissing(f"{AS}:CtxAwareTransformer: the binding stack pushed and popped around def/class bodies ({sorted(pushes)})")
+    stack = stacks[0]
+
+    def self_attr_events(fn):
+        reads, writes = [], []
+        for n in walk_local(fn):
+            if isinstance(n, ast.Attribute) and unparse(n.value) == "self":
+                par = getattr(n, "_xv_parent", None)
+                if isinstance(n.ctx, (ast.Store, ast.Del)):
+                    writes.append((n.attr, n))
+                elif isinstance(par, ast.Call) and par.func is n:
+                    continue  # a method call
+                elif isinstance(par, ast.Attribute) and par.value is n and isinstance(getattr(par, "_xv_parent", None), ast.Call) and par._xv_parent.func is par and par.attr in _MUTATORS:
+                    writes.append((n.attr, n))
+                    reads.append((n.attr, n))
+                elif isinstance(par, ast.Subscript) and par.value is n and isinstance(par.ctx, (ast.Store, ast.Del)):
+                    writes.append((n.attr, n))
+                else:
+                    reads.append((n.attr, n))
+            elif isinstance(n, ast.AugAssign) and isinstance(n.target, ast.Attribute) and unparse(n.target.value) == "self":
+                writes.append((n.target.attr, n))
+        return reads, writes
+
+    events = {name: self_attr_events(fn) for name, fn in meths.items()}
+    # per-walk constants: written only by the constructor and the walk's entry point (the method that creates the stack)
+    entry = {name for name, (rd, wr) in events.items() if any(a == stack and isinstance(getattr(n, "_xv_parent", None), (ast.Assign, ast.Delete)) for a, n in wr)}
+    setup = entry | {"__init__"}
+    varying = {a for name, (rd, wr) in events.items() if name not in setup for a, _ in wr}
+    # the query methods: read the stack, never push/pop/modify it, and return a verdict
+    queries = [name for name, (rd, wr) in events.items() if name not in setup and any(a == stack for a, _ in rd) and not any(a == stack for a, _ in wr) and any(isinstance(n, ast.Return) and n.value is not None for n in walk_local(meths[name]))]
+    if "is_in_scope" not in queries:
+        raise AnchorMissing(f"{AS}:CtxAwareTransformer.is_in_scope is no longer a read-only query of `{stack}` (queries found: {queries})")
+    for name in sorted(queries):
+        rd, wr = events[name]
+        st = f"{AS}:CtxAwareTransformer.{name}"
+        ctx.ob("R7", st, "the query stores nothing on the transformer", not wr, key=f"{name}|scope-query-stores-state", where=loc(wr[0][1]) if wr else loc(meths[name]), detail=f"writes self.{wr[0][0]}" if wr else None)
+        foreign = sorted({a for a, _ in rd if a != stack and a in varying})
+        ctx.ob("R7", st, f"apart from the binding stack `self.{stack}` the query reads only per-walk constants", not foreign, key=f"{name}|scope-query-reads-varying-state", where=loc(meths[name]), detail=f"reads self.{foreign[0]}, which other methods change during the walk" if foreign else None)
+
 
 META = {
     "technique": "static analysis: call-graph reachability from Execer.parse, loop-variant catalogue checked by CFG cycle queries (no cycle through the loop head without a progress statement), guard facts on the recursion, raise-provenance, string-provenance of the wrapper",
@@ -496,4 +565,5 @@ META = {
     "Whether the chosen window is right for every line is value-level and not decided.",
     "note": "Decides the listed structural clauses, not the behaviour. Companion facts for two non-trivial progress "
     "assignments are frozen in the catalogue with their reason. PLY and the tokenizer are trusted.",
+    "more": 'Also decided: the retry budget of the recovery loop grows with the length of the input (a bound on the number of segments), not with the number of lines alone; the second-phase scope queries are pure functions of the live binding stack (no memo that outlives a def/class scope).',
 }
